@@ -30,3 +30,5 @@ def run(ctx: Ctx) -> None:
     ctx.do(C.rule_enum_compute)
     ctx.do(RO.rule_roles)
     ctx.do(TR.rule_alias_grad)
+    from kfv.rules import dist_rules as _DR
+    ctx.do(_DR.rule_contig)
